@@ -6,7 +6,7 @@
 From Coq Require Import String Ascii.
 From Coq Require Import List NArith ZArith Bool.
 Import ListNotations.
-From TarpcV Require Import Base Schema Wire WireProofs JsonText JsonTextProofs Framing FramingProofs Shipped ShippedProofs.
+From TarpcV Require Import Base Schema Wire WireProofs JsonText JsonTextProofs JsonArrayProofs Framing FramingProofs Shipped ShippedProofs.
 
 (* ---- MAIN THEOREM: the monitor accepts every run of the model ----
    For every configuration (codec or channel, every list of read-chunk sizes, every cut position)
@@ -148,6 +148,68 @@ Theorem C15_json_parse_rejects :
   json_parse [123; 125; 32; 120]%N = None /\
   json_parse [34; 1; 34]%N = None.
 Proof. exact json_parse_rejects. Qed.
+
+(* ---- the ARRAY form: serde_json hands a JSON array to a struct's visit_seq, so a peer may write
+   every struct and struct variant as the positional array of its fields (Duration as
+   [secs,nanos]).  serde_json never prints it; the decoder must understand it. ---- *)
+
+(* for ANY well-formed shape: the array form of a conforming value tree decodes to that tree *)
+Theorem C15_json_array_form_schema : forall s, schema_wf s = true ->
+  forall v, conforms false s v ->
+  exists j, json_enc_arr s v = Some j /\ json_dec s j = Some v.
+Proof. exact json_arr_roundtrip_generic. Qed.
+
+(* decoding the array form of a message gives the message *)
+Theorem C15_json_array_form_decodes : forall m, cm_wf m -> explicit m ->
+  exists j, cm_json_arr m = Some j /\ cm_of_json j = Some m.
+Proof. exact json_array_form_cm. Qed.
+
+Theorem C15_json_array_form_decodes_response : forall r, resp_wf r ->
+  exists j, resp_json_arr r = Some j /\ resp_of_json j = Some (degrade_resp r).
+Proof. exact json_array_form_resp. Qed.
+
+(* ... also as TEXT with any whitespace between the tokens *)
+Theorem C15_json_array_form_text : forall sp m, all_ws sp = true -> cm_wf m -> explicit m ->
+  exists j, cm_json_arr m = Some j /\ cm_of_json_text (json_text_sp sp j) = Some m.
+Proof. exact json_array_form_text_cm. Qed.
+
+Theorem C15_json_array_form_text_response : forall sp r, all_ws sp = true -> resp_wf r ->
+  exists j, resp_json_arr r = Some j /\ resp_of_json_text (json_text_sp sp j) = Some (degrade_resp r).
+Proof. exact json_array_form_text_resp. Qed.
+
+(* positional decoding when the array is too short / too long: the missing trailing fields are
+   taken from their #[serde(default)] iff ALL of them have one; left-over elements are an error *)
+Theorem C15_json_array_trailing_defaults : forall fs, all_dflt fs = true ->
+  json_dec_fields_seq fs [] = Some (repeat VDefault (fields_len fs)).
+Proof. exact seq_trailing_defaults. Qed.
+Theorem C15_json_array_too_short : forall fs, all_dflt fs = false -> json_dec_fields_seq fs [] = None.
+Proof. exact seq_too_short. Qed.
+Theorem C15_json_array_too_long : forall j l, json_dec_fields_seq FNil (j :: l) = None.
+Proof. exact seq_too_long. Qed.
+
+(* the protocol's own structs (no default is trailing in any of them, so no array may be short):
+   the two inputs of audit finding F12, a too-short, a too-long and an empty Cancel, a Request
+   whose context is an object without deadline inside an array, a context array that is too
+   short, and an array-form Response *)
+Theorem C15_json_array_form_examples :
+  let z16 := JArr (repeat (JNum 0) 16) in
+  let tc := JArr [z16; JNum 1; JStr (sbytes "Sampled")] in
+  let t := {| t_trace := 0; t_span := 1; t_sampled := true |} in
+  cm_of_json (JObj [("Cancel"%string, JArr [tc; JNum 7])]) = Some (CCancel t 7) /\
+  cm_of_json (JObj [("Cancel"%string, JArr [tc])]) = None /\
+  cm_of_json (JObj [("Cancel"%string, JArr [tc; JNum 7; JNull])]) = None /\
+  cm_of_json (JObj [("Cancel"%string, JArr [])]) = None /\
+  cm_of_json (JObj [("Request"%string,
+      JArr [JArr [JArr [JNum 18446744073709551615; JNum 0]; tc]; JNum 1; JStr (sbytes "x")])])
+    = Some (CRequest {| r_ctx := {| c_deadline := DlExplicit 18446744073709551615 0; c_trace := t |};
+                        r_id := 1; r_body := sbytes "x" |}) /\
+  cm_of_json (JObj [("Request"%string,
+      JArr [JObj [("trace_context"%string, tc)]; JNum 1; JStr (sbytes "x")])])
+    = Some (CRequest {| r_ctx := {| c_deadline := DlOmitted; c_trace := t |}; r_id := 1; r_body := sbytes "x" |}) /\
+  cm_of_json (JObj [("Request"%string, JArr [JArr [tc]; JNum 1; JStr (sbytes "x")])]) = None /\
+  resp_of_json (JArr [JNum 3; JObj [("Err"%string, JArr [JNum 10; JStr (sbytes "busy")])]])
+    = Some {| resp_id := 3; resp_msg := RErr {| e_kind := WouldBlock; e_detail := sbytes "busy" |} |}.
+Proof. exact array_form_examples. Qed.
 
 (* both round trips hold for ANY shape that satisfies the generated side condition schema_wf *)
 Theorem C15_bincode_roundtrip_schema : forall s, schema_wf s = true ->
@@ -291,6 +353,15 @@ Print Assumptions C15_json_text_roundtrip_message_ws.
 Print Assumptions C15_json_text_roundtrip_response_ws.
 Print Assumptions C15_json_text_cancel_no_trace.
 Print Assumptions C15_json_parse_rejects.
+Print Assumptions C15_json_array_form_schema.
+Print Assumptions C15_json_array_form_decodes.
+Print Assumptions C15_json_array_form_decodes_response.
+Print Assumptions C15_json_array_form_text.
+Print Assumptions C15_json_array_form_text_response.
+Print Assumptions C15_json_array_trailing_defaults.
+Print Assumptions C15_json_array_too_short.
+Print Assumptions C15_json_array_too_long.
+Print Assumptions C15_json_array_form_examples.
 Print Assumptions C15_bincode_roundtrip_schema.
 Print Assumptions C15_json_tree_roundtrip_schema.
 Print Assumptions C15_kinds_degrade.
